@@ -7,8 +7,10 @@ Sub-checks (case kinds):
           depth 2 with a third formula; a third of the callbacks interpose it inside the host's `except XLError:`
           block, while an XL error the host raised itself is being handled; the pool includes formulas whose
           functions raise XL errors (RAISERS) and whose host function MKNA answers with an error object of the
-          host's own making (HOSTMADE; these pairs run last); a sample of the runs is compared with the Lean
-          interleaving model (`interleave.batch`)
+          host's own making (HOSTMADE; these pairs run last); 5 fixed pairs come first: TEXT with a time format
+          around TEXT with a date-only format, two number formats, LARGE / SMALL / MEDIAN / RANK / MATCH on `lst`, ONE
+          host list registered on every parser of the rig and reset before every solo / nested run; a sample of
+          the runs is compared with the Lean interleaving model (`interleave.batch`)
   bind    (b) isolation of bindings: variables / predefined names / functions / builtin names / listeners
           (on, once) of P and a journal listener that edits the argument list it is handed are invisible on a Q
           created before and a Q created after; variable / function cases also: P's own outcomes under the name and
@@ -70,10 +72,21 @@ RULE = ('(a) nest: all ordered pairs (outer, inner) of a seeded pool of formulas
         'ones, alternately a C04 tree (c04.gen_top, depth 1-3, 30% with white space added) and a C08 tree (c08.gen, depth 1-3, '
         'error-leaf probability 0.15 / 0.4) with the hook function CB wrapped around each sub-expression with probability 0.4, '
         'duplicates among the generated ones dropped: up to 23^2 = 529 pairs quick (35^2 at scale 5), 67^2 = 4489 thorough. '
+        'AHEAD of these pairs, as the first nest cases of the case list (after the bind and cold cases), 5 fixed pairs outer | inner, '
+        'third formula CB(7), on functions that keep tables or work on a host list: CB(1)&" at "&TEXT(DATE(2024,3,5),"hh:mm") | '
+        'TEXT(DATE(2024,11,17),"dd/mm/yyyy") (a time format evaluated after a date-only format ran inside it); '
+        'CB(2)&TEXT(1234.5,"#,##0.00") | TEXT(0.25,"0%") (two number formats); CB(1)+INDEX(lst,1) | LARGE(lst,1); CB(1)+INDEX(lst,1) | '
+        'SMALL(lst,1)+MEDIAN(lst); CB(1)+MATCH(2,lst,0) | RANK(2,lst)+COUNT(lst): with them up to 534 nest cases quick at scale 1, 1230 at scale 5, '
+        '4494 thorough. lst = SHARED_LST: ONE Python list [3,1,2] that equip registers, the same object and without offset, as the '
+        'variable lst on every parser of the rig (A, B, N, those of the solo rig, the thread parsers) and that reset_shared sets back '
+        'in place to [3,1,2] before every solo run and every nested run; the outer formulas read lst AFTER their CB call, so an inner '
+        'evaluation that edited the host\'s list (a sort in place) shows in INDEX / MATCH of the outer one. No pool formula and no '
+        'sched / linesched / stress formula mentions lst. '
         'The C04 trees are c04.gen_top WITHOUT the leaves C04 switches on for its own cases only (no error variables, no '
         'non-dyadic decimals, no blank operands): 60% arithmetic / 25% one comparison / 15% & chain of 2-4 integer operands '
-        'over prime integers, dyadic decimals, leading-dot, percent and power literals, 4 variables, 5 cell references in '
-        'either case, + - * /, unary minus, ID(), parenthesised comparisons and (5% of the operands) parenthesised '
+        'over prime integers, dyadic decimals, leading-dot, percent and power literals, 5 variables (ovr among them), 5 cell references in '
+        'either case, + - * /, unary minus, one-argument calls ID() / ABS() (70 / 30 % of the call nodes; ABS is the shipped builtin '
+        'here), parenthesised comparisons and (5% of the operands) parenthesised '
         'concatenations as numbers, boundary twins in 30% of the comparisons; minimal parentheses. The C08 trees are c08.gen: 4% '
         'a TEXT that spells an error code (literal, concatenation of two parts, 30% through ID, 30% lower case), 56% '
         'numeric, 25% one comparison (a quarter of these between two & nodes), 15% a & node; leaves are prime integers or, with '
@@ -82,8 +95,8 @@ RULE = ('(a) nest: all ordered pairs (outer, inner) of a seeded pool of formulas
         'zero-likes / failing builtin calls / these inside calls / the cells C3, D4) or (15% of them) an error x array node '
         '(inline arrays, lst_* names, A1:A3 ranges); rendered fully parenthesised by c03.render8 - C08\'s wraps (IFERROR / '
         'IFNA / IS* / ERROR.TYPE and the falsy fallbacks 0 / FALSE / "") are applied in c08.forms, not in c08.gen, and do not '
-        'occur here. All pool formulas are evaluated under THIS rig\'s bindings (equip), not C04\'s / C08\'s: C04\'s 4 variables '
-        'and 5 cells shifted by the parser\'s offset, txt, lv (set by the listener), e_<tag> / RAISE_<TAG> for C08\'s 9 codes, '
+        'occur here. All pool formulas are evaluated under THIS rig\'s bindings (equip), not C04\'s / C08\'s: C04\'s 5 variables (va vb v_c rate_x ovr; ovr a plain variable 41 + offset here, no listener answers it) '
+        'and 5 cells shifted by the parser\'s offset, txt, lst (the shared list, not shifted), lv (set by the listener), e_<tag> / RAISE_<TAG> for C08\'s 9 codes, '
         'PYRAISE, MKNA, ID (the identity, not re-entrant), OFF, CB, every range a 2x2 block; the names only C08 binds (dt_*, '
         'blank, lst_*) are unknown names here (#NAME? after a callVariable event) and the cells C3 / D4 / Z9 blank - what a '
         'formula evaluates to does not matter, only that it does so alike alone and nested. The nest cases are sorted '
@@ -250,6 +263,12 @@ TRUSTED = ['granularity: the controlled scheduler and the Lean model interleave 
            'nest: the formulas borrowed from C04 / C08 (c04.gen_top, c08.gen) are taken as texts only; their own oracles '
            '(exact values, which error wins) are not applied here and the bindings are this rig\'s, not theirs - the solo run '
            'is the only yardstick',
+           'nest, shared list: SHARED_LST is a module-level list of the harness; setting it back in place before every solo and '
+           'nested run (reset_shared) is the harness\'s hygiene, so that a run starts from [3,1,2] whatever an earlier one did to '
+           'it - a mutation shows within the run that made it (outer against its solo run), not across runs; the thread parsers '
+           'carry lst too but no scheduled formula reads it; the five pairs stand first among the nest cases only: bind cases and '
+           'the step-counting solo runs of the sched formulas (made while the cases are generated) have evaluated on other parsers '
+           'of the process before',
            'bind, globals: the 10 interpreter settings watched are the harness\'s choice (a setting not in the list is not '
            'watched), they are read only at the calls of the host function PROBE and of the callCellValue listener and after '
            'the six evaluations (a change undone between two reads is not seen), the SIGALRM handler is compared by repr; '
@@ -301,6 +320,10 @@ ASSUMPTIONS = ['"outcome" = the record returned by Parser.parse, compared exactl
                'nest: a host function may answer with an XLError object it constructed itself (error.XLError("#N/A")) instead of '
                'one of the library\'s constants; formulas that call it fall under the statement like any other, and making '
                'such an object does not change what other evaluations of the process yield',
+               'nest: a host may register one and the same list object as a variable on several parsers; an evaluation that '
+               'reads it (LARGE, SMALL, MEDIAN, RANK, COUNT, MATCH, INDEX) leaves it as it is, so that the evaluation it is nested '
+               'in reads what it reads alone; likewise what a formatting function (TEXT) keeps from one format text does not '
+               'change what another format yields around it',
                'sheet cases: a listener that evaluates the formula of a cell and hands its result to the setter is a host '
                'whose answer depends on the nested evaluation only through that evaluation\'s outcome; "the outcome '
                'it yields when '
